@@ -146,6 +146,17 @@ Print Assumptions C35_retry_live.
 Print Assumptions C35_load_live.
 Print Assumptions C35_save_live.
 Print Assumptions C35_cancel_in_sleep.
+(* List: de-duplication by NAME — for EVERY sequence of per-attempt listings (any orders, any prefixes,
+   files present in some attempts only) the names handed to fn are duplicate-free, among the store's keys,
+   and contain every name any attempt listed (so all keys once one attempt was complete) *)
+Theorem C35_list_dedup_by_name_any_order : forall keys0 attempts,
+  (forall l, In l attempts -> forall x, In x l -> In x keys0) ->
+  NoDup (emit_all attempts) /\
+  (forall x, In x (emit_all attempts) -> In x keys0) /\
+  (forall l, In l attempts -> forall x, In x l -> In x (emit_all attempts)).
+Proof. exact emit_seq_sound. Qed.
+
+Print Assumptions C35_list_dedup_by_name_any_order.
 Print Assumptions C35_retry_op_correct.
 Print Assumptions C35_retry_seq_correct_atomic.
 Print Assumptions C35_retry_seq_correct.
